@@ -552,10 +552,10 @@ def configs(ctx):
         C.append(dict(name=name, modes=modes, sample=sample, required=required, procs=procs, simulate=simulate, sample_modes=sample_modes or {}, sub={
             "NI <- NI3": "NI <- " + ni, "SelfSet <- SelfB": "SelfSet <- " + selfset, "ProcSet <- P1": "ProcSet <- " + procs, "OwSet <- OwBoth": "OwSet <- " + ow,
             "FaultSet <- FAll": "FaultSet <- " + faults, "ExtSet <- ESome": "ExtSet <- " + ext, "MaxCalls = 2": "MaxCalls = %d" % calls}))
-    add("p1-wide", "SelfAq" if q else "SelfA", "P1", "FAll", "EAll", 2, required=ACTIONS, sample_modes=dict(chain=ctx.pick(0.25, 1.0)))
-    add("p1-deep", "SelfQ", "P1", "FAll", "ESome", 3, modes=("fresh", "same"), simulate=dict(num=ctx.pick(700, 4000), depth=60) if q else None, sample_modes=dict(same=0.5))
-    add("p1-sink", "SelfSink", "P1", "FCrash", "ESink", 2 if q else 3, modes=("fresh", "same"))
-    add("p1-batch", "SelfBatch", "P1", "FCrash", "ENone", 2, ni="NI5", modes=("fresh",) if q else ("fresh", "same"))
+    add("p1-wide", "SelfAq" if q else "SelfA", "P1", "FAll", "EAll", 2, required=ACTIONS, sample_modes=dict(same=ctx.pick(0.5, 1.0), chain=ctx.pick(0.2, 1.0)))
+    add("p1-deep", "SelfQ", "P1", "FAll", "ESome", 3, modes=("fresh", "same"), simulate=dict(num=400, depth=60) if q else None, sample_modes=dict(same=0.5))
+    add("p1-sink", "SelfSink", "P1", "FCrash", "ESink", 2 if q else 3, modes=("fresh", "same"), sample_modes=dict(fresh=ctx.pick(0.5, 1.0)))
+    add("p1-batch", "SelfBatch", "P1", "FCrash", "ENone", 2, ni="NI5", modes=("fresh",) if q else ("fresh", "same"), sample=ctx.pick(250, None))
     add("p2", "SelfQ2" if q else "SelfC", "P2", "FAll", "ESome" if q else "ENone", 2, modes=("fresh", "same"), sample=ctx.pick(220, 5000))
     if not q:
         add("p1-other", "SelfD", "P1", "FAll", "EAll", 2)
@@ -579,6 +579,7 @@ def run(ctx):
     jobs.append(("live", "EnvSave_live.cfg", {} if not ctx.quick else {"MaxCalls = 3": "MaxCalls = 2"}, dict(workers=4)))
     with ThreadPoolExecutor(max_workers=3) as ex:
         results = dict(ex.map(tlc_job, jobs))
+    ctx.extra["tlc_wall_s"] = {k: round(v.wall, 1) for k, v in results.items()}
     for g, what, expect in GUARDS:
         r = results["guard-" + g]; ctx.add_tlc("EnvSave guard " + g, r)
         names = {v["name"] for v in r.violations}
@@ -603,6 +604,7 @@ def run(ctx):
     ctx.extra["sampled_configurations"] = [c["name"] for c in C if c["simulate"] or c["sample"]]
     ctx.extra["behaviours"] = {k: dict(inputs=len(g), behaviours=sum(len(x) for x in g.values())) for k, g in behs.items()}
 
+    import time as _t; ctx.extra["tlc_done_at_s"] = round(_t.time() - ctx.t0, 1)
     # ---- 2. every behaviour on the real code (a pool of worker processes; each has its own file) ----
     tasks = []
     for c in C:
@@ -646,6 +648,7 @@ def run(ctx):
                     ctx.case(key)
                 ctx.traces += n
                 for sig, what, rep in viols: ctx.violation(sig, what, rep)
+    import time as _t; ctx.extra["replay_done_at_s"] = round(_t.time() - ctx.t0, 1)
     b0 = next(iter(behs["p1-deep"].values()))[0]
     ctx.sample(dict(behaviour=show(b0), expected=[dict(out=c["out"], ret=c.get("ret"), archive=pairs(c["arch"]), damaged=c["damaged"]) for c in b0["calls"]]))
 
